@@ -88,6 +88,11 @@ func (s *State) assumeOnce(f string) {
 	s.assume(f)
 }
 
+type iterMark struct {
+	pos, end token.Pos
+	top      string
+}
+
 type Obligation struct {
 	Name   string
 	Kind   string
@@ -139,6 +144,7 @@ type FnCtx struct {
 	entryScope map[string]Val
 	entryLocks []string
 	loopEntries map[int]*State
+	iterMarks   []iterMark // root only: allocation watermark at the start of the (arbitrary) iteration of each loop being executed
 	canaries []*Obligation
 	havocFor int
 	freshRows map[int]map[string]string
